@@ -222,6 +222,10 @@ mut("C02", "child-returns-on-missing-input", "R02-6|core::run_single_program|chi
 
                     libs::dup2(fd, 0);"""))
 
+mut("C02", "wait-on-process-group", "R02-7|jobc::wait_fg_job|wait-target",
+    "wait_fg_job waits on -gid: a stage that left the group is never reaped",
+    (J, "        let ws = waitpidx(-1, true);", "        let ws = waitpidx(-gid, true);"))
+
 # ------------------------------------------------------------------ C08
 mut("C08", "child-keeps-read-end", "K3c", "child keeps the read end of its own output pipe",
     (C, '''                libs::dup2(fds.1, 1);
